@@ -92,6 +92,9 @@ pub fn run(tier: Tier, replay: Option<String>) -> i32 {
                 }
                 c.count(&format!("writer.{}", wflavor.name()));
                 c.count(&format!("reader.{}", rflavor.name()));
+                if c.want_sample() && frames.len() >= 2 && c.evaluations % 331 == 7 {
+                    c.sample(json!({"endpoint": label, "key": vcommon::hex_short(&key), "writer": wflavor.name(), "reader": rflavor.name(), "messages": idx.iter().map(|i| pool.frames[*i].0.clone()).collect::<Vec<_>>(), "plain_bytes": frames.iter().map(|f| f.len()).sum::<usize>()}));
+                }
             }
             let cipher = match &cyc.cipher {
                 Ok(cph) => cph,
